@@ -229,7 +229,14 @@ impl std::fmt::Display for Expr {
             Self::Constant(c) => write!(f, "{c}"),
             Self::Function { func, inner } => write!(f, "{func}({inner})"),
             Self::UnaryOpPrefix { op, value } => write!(f, "{op}{value}"),
-            Self::UnaryOpPostfix { op, value } => write!(f, "{value}{op}"),
+            Self::UnaryOpPostfix { op, value } => {
+                // `(-a)!` is not `-a!`
+                if matches!(**value, Self::UnaryOpPrefix { .. }) {
+                    write!(f, "({value}){op}")
+                } else {
+                    write!(f, "{value}{op}")
+                }
+            }
             Self::BinaryOp {
                 op,
                 lhs,
@@ -245,13 +252,18 @@ impl std::fmt::Display for Expr {
                     implied = match (&**lhs, &**rhs) {
                         (Self::Number(n), Self::Variable(v)) => Some(format!("{n}{v}")),
                         (Self::Number(n), Self::Constant(c)) => Some(format!("{n}{c}")),
+                        // not when the power starts with a bare number: 5 * 2^3 is not "52 ^ 3"
                         (
                             Self::Number(n),
                             Self::BinaryOp {
                                 op: Operators::Caret,
+                                lhs: base,
+                                paren: power_paren,
                                 ..
                             },
-                        ) => Some(format!("{n}{rhs}")),
+                        ) if *power_paren || !matches!(**base, Self::Number(_)) => {
+                            Some(format!("{n}{rhs}"))
+                        }
                         (Self::Variable(v), Self::Number(n)) => Some(format!("{v}{n}")),
                         (Self::Constant(c), Self::Number(n)) => Some(format!("{c}{n}")),
                         _ => None,
@@ -270,10 +282,17 @@ impl std::fmt::Display for Expr {
                     }
                     return write!(f, "{s}");
                 }
-                if *paren {
-                    write!(f, "({lhs} {op} {rhs})")
+                // `(-x)^2` is not `-x ^ 2`
+                let base = if *op == Operators::Caret && matches!(**lhs, Self::UnaryOpPrefix { .. })
+                {
+                    format!("({lhs})")
                 } else {
-                    write!(f, "{lhs} {op} {rhs}")
+                    format!("{lhs}")
+                };
+                if *paren {
+                    write!(f, "({base} {op} {rhs})")
+                } else {
+                    write!(f, "{base} {op} {rhs}")
                 }
             }
         }
